@@ -756,7 +756,11 @@ func (c *CEnv) quant(e *CE) Value {
 		}
 		if val.K == KPtr && !c.heap().Spec {
 			// quantification over the objects that exist: allocated, non-negative references
-			guards = append(guards, iLe(IntLit(0), s), iLt(s, c.x.alloc(c.heap())))
+			if _, ok := val.Loc.T.Underlying().(*types.Struct); ok {
+				guards = append(guards, iLt(IntLit(0), s), Select(c.x.isType(c.heap(), val.Loc.T), s))
+			} else {
+				guards = append(guards, iLe(IntLit(0), s), iLt(s, c.x.alloc(c.heap())))
+			}
 		}
 		nb[v] = val
 		vars = append(vars, [2]string{name, sort})
@@ -924,6 +928,13 @@ func (c *CEnv) callExpr(e *CE, hint *Value) Value {
 		}
 		comp := c.x.comp(c.heap(), a.Loc.Prefix, c.x.compSortFor(lf[0].Sort, len(a.Loc.Elems)+1))
 		return Value{K: KScalar, X: nestedSelect(comp, a.Loc.indices())}
+	case "payload":
+		// the pointer wrapped by an interface value
+		a := c.eval(e.Args[0])
+		if a.K != KIface {
+			c.fail("payload() of non-interface")
+		}
+		return Value{K: KScalar, X: c.x.payload(a.X)}
 	case "arr":
 		// the backing array (reference) of a slice: arr(a) == arr(b) says they share storage
 		a := c.eval(e.Args[0])
